@@ -157,6 +157,14 @@ def run(prog, rep):
     # text-level restatement ("in wrapped text every line holds as many fragments as fit"): the widths handed to the
     # algorithm are the configured width minus the indent each line is rendered with (lemma C02)
     lemmas.load_all()
+    # ... and the widths of the fragments are the display widths of their text (Word::from, split_words, break_apart)
+    for l in ("C10", "C11.R3", "C12.R3", "C12.R6", "C12.R7"):
+        stl = lemmas.status(prog, l)
+        if stl == "ok":
+            rep.ok("C07.R5", "crate", "lemma %s holds in this run" % l, "evaluated: ok", nontrivial=False)
+        else:
+            rep.violation("C07.R5", "crate", "lemma:" + l, "crate", "lemma %s is %s in this run: fragments of wrapped text carry "
+                          "widths that are not the display widths of their text, so lines are not greedy-maximal" % (l, stl))
     st = lemmas.status(prog, "C02")
     if st == "ok":
         rep.ok("C07.R5", "crate", "lemma C02 holds in this run", "evaluated: ok", nontrivial=False)
